@@ -23,7 +23,7 @@
 From Coq Require Import ZArith List Bool Reals.
 From Flocq Require Import Core.
 From NS Require Import Base.FloatBridge Gen.G18 Model.FramesRoll
-  Proofs.FramesRoll Proofs.FramesRollFloat Proofs.FramesRollGrid.
+  Proofs.FramesRoll Proofs.FramesRollFloat Proofs.FramesRollGrid Proofs.FramesRollPaint Proofs.FramesRollRolls.
 Import ListNotations.
 Local Open Scope Z_scope.
 
@@ -104,6 +104,126 @@ Theorem C18_active_roll_shape : forall c notes,
   rect (active_roll c notes) (Z.to_nat (roll_rows (c_fps c) (c_total c))) (Z.to_nat (c_max_pitch c - c_min_pitch c + 1)).
 Proof. exact active_roll_shape_proof. Qed.
 Print Assumptions C18_active_roll_shape.
+
+(** ** The onset, offset and velocity rolls, for any note list
+    (onset_t0 c n = start + onset_delay_ms/1000, onset_t1 c n = end + onset_delay_ms/1000,
+     offset_t0 c n = min(end, total_time - offset_length_ms/1000); float arithmetic as in the code).
+    The hypotheses "0 <= frame" exclude the region where numpy's negative slice indices wrap
+    (a delayed onset more than window+1 frames before time 0), see notes/C18.md. *)
+
+(* any onset mode, any occupancy: a cell is set iff it lies in the roll and inside the onset frame
+   range the loop computed for some in-range note *)
+Theorem C18_onset_cells : forall c notes,
+  0 <= rows_of c -> 0 <= cols_of c ->
+  (forall n, In n notes -> in_range c n = true -> 0 <= fst (onset_frames c n) /\ 0 <= snd (onset_frames c n)) ->
+  forall i p, 0 <= i -> 0 <= p ->
+  (mget (onset_roll c notes) i p = true <->
+   (i < rows_of c /\
+    exists n, In n notes /\ in_range c n = true /\ p = n_pitch n - c_min_pitch c /\
+              fst (onset_frames c n) <= i < snd (onset_frames c n))).
+Proof. exact onset_cells_proof. Qed.
+Print Assumptions C18_onset_cells.
+
+(* onset_mode 'window' (occupancy test off): exactly the frames w - window .. w + window inside the roll,
+   w = int((start + delay/1000) * fps) *)
+Theorem C18_onset_frames : forall c notes,
+  c_mode c = 0 -> gt0 (c_occ c) = false -> 0 <= rows_of c -> 0 <= cols_of c ->
+  (forall n, In n notes -> in_range c n = true -> 0 <= sframe (c_fps c) (onset_t0 c n) + c_window c + 1) ->
+  forall i p, 0 <= i -> 0 <= p ->
+  (mget (onset_roll c notes) i p = true <->
+   (i < rows_of c /\
+    exists n, In n notes /\ in_range c n = true /\ p = n_pitch n - c_min_pitch c /\
+              sframe (c_fps c) (onset_t0 c n) - c_window c <= i <= sframe (c_fps c) (onset_t0 c n) + c_window c)).
+Proof. exact onset_window_proof. Qed.
+Print Assumptions C18_onset_frames.
+
+(* onset_mode 'length_ms': [int(t0*fps), max(int(t0*fps)+1, ceil(min(t1, t0 + length/1000)*fps))) inside the roll *)
+Theorem C18_onset_frames_length : forall c notes,
+  c_mode c <> 0 -> gt0 (c_occ c) = false -> 0 <= rows_of c -> 0 <= cols_of c ->
+  (forall n, In n notes -> in_range c n = true -> 0 <= sframe (c_fps c) (onset_t0 c n)) ->
+  forall i p, 0 <= i -> 0 <= p ->
+  (mget (onset_roll c notes) i p = true <->
+   (i < rows_of c /\
+    exists n, In n notes /\ in_range c n = true /\ p = n_pitch n - c_min_pitch c /\
+              sframe (c_fps c) (onset_t0 c n) <= i <
+              Z.max (sframe (c_fps c) (onset_t0 c n) + 1)
+                    (eframe (c_fps c) (fmin (onset_t1 c n)
+                       (PrimFloat.add (onset_t0 c n) (PrimFloat.div (c_onset_len_ms c) f1000)))))).
+Proof. exact onset_length_proof. Qed.
+Print Assumptions C18_onset_frames_length.
+
+(* offsets: [int(t*fps), max(int(t*fps)+1, ceil((t + length/1000)*fps))) inside the roll, t = offset_t0 *)
+Theorem C18_offset_frames : forall c notes,
+  gt0 (c_occ c) = false -> 0 <= rows_of c -> 0 <= cols_of c ->
+  (forall n, In n notes -> in_range c n = true -> 0 <= sframe (c_fps c) (offset_t0 c n)) ->
+  forall i p, 0 <= i -> 0 <= p ->
+  (mget (offset_roll c notes) i p = true <->
+   (i < rows_of c /\
+    exists n, In n notes /\ in_range c n = true /\ p = n_pitch n - c_min_pitch c /\
+              sframe (c_fps c) (offset_t0 c n) <= i <
+              Z.max (sframe (c_fps c) (offset_t0 c n) + 1)
+                    (eframe (c_fps c) (PrimFloat.add (offset_t0 c n) (PrimFloat.div (c_offset_len_ms c) f1000))))).
+Proof. exact offset_cells_proof. Qed.
+Print Assumptions C18_offset_frames.
+
+(* velocity roll (the model stores the integer velocity v; the Python cell is float32(v / max_velocity)):
+   every cell of the roll holds the velocity of the LAST note, in stable start-time order, whose
+   frame range covers it, and 0 if there is none *)
+Theorem C18_velocity_cells : forall c notes,
+  0 <= rows_of c -> 0 <= cols_of c ->
+  (forall n, In n notes -> in_range c n = true ->
+             0 <= f_start (note_frames c n) /\ 0 <= f_end (note_frames c n)) ->
+  forall i p, 0 <= i < rows_of c -> 0 <= p ->
+  zget (velocity_roll c notes) i p =
+  match last_cover (fun n => in_cell c n i p) (painted_notes c notes) with
+  | Some n => n_vel n
+  | None => 0
+  end.
+Proof. exact velocity_cells_proof. Qed.
+Print Assumptions C18_velocity_cells.
+
+(* with velocities >= 1 and no blank frame the velocity is non-zero in exactly the active frames *)
+Theorem C18_velocity_on_active_frames : forall c notes,
+  c_blank c = false -> 0 <= rows_of c -> 0 <= cols_of c ->
+  (forall n, In n notes -> in_range c n = true ->
+             0 <= f_start (note_frames c n) /\ 0 <= f_end (note_frames c n)) ->
+  (forall n, In n notes -> in_range c n = true -> 1 <= n_vel n) ->
+  forall i p, 0 <= i < rows_of c -> 0 <= p ->
+  (zget (velocity_roll c notes) i p <> 0 <-> mget (active_roll c notes) i p = true).
+Proof. exact velocity_active_proof. Qed.
+Print Assumptions C18_velocity_on_active_frames.
+
+(* the painted value velocity / max_velocity, as the binary64 quotient Python computes before numpy casts it
+   to float32, is finite and lies in (0, 1] for 1 <= velocity <= max_velocity; also the exact rational *)
+Theorem C18_velocity_in_unit_interval : forall v mv, 1 <= v <= mv -> mv < 2 ^ 53 ->
+  fin (PrimFloat.div (fz v) (fz mv)) /\ (0 < R_of (PrimFloat.div (fz v) (fz mv)) <= 1)%R /\
+  (0 < IZR v / IZR mv <= 1)%R.
+Proof. exact (fun v mv H Hm => conj (proj1 (velocity_unit_float v mv H Hm))
+                                 (conj (proj2 (velocity_unit_float v mv H Hm)) (velocity_unit_real v mv H))). Qed.
+Print Assumptions C18_velocity_in_unit_interval.
+
+(* weights roll (the model stores code 0 for 1.0 and code k >= 1 for onset_upweight / k): every painted note
+   performs, in order, the assignments [weight_ops] (onset frames <- upweight; the frames from the onset end
+   to the note end <- upweight/1, upweight/2, ...; blank frame <- 1.0) and every cell holds what the last
+   assignment touching it wrote *)
+Theorem C18_weights_cells : forall c notes,
+  0 <= rows_of c -> 0 <= cols_of c ->
+  (forall n, In n notes -> in_range c n = true ->
+     0 <= f_on_s (note_frames c n) /\ 0 <= f_on_e (note_frames c n) /\
+     0 <= f_start (note_frames c n) /\ 0 <= f_end (note_frames c n)) ->
+  forall i p, 0 <= i -> 0 <= p ->
+  zget (weights_roll c notes) i p =
+  last_write wop (fun o => o) (Z.to_nat (rows_of c)) (Z.to_nat i) (Z.to_nat p)
+             (flat_map (weight_ops c (Z.to_nat (rows_of c))) (painted_notes c notes)) 0.
+Proof. exact weights_cells_proof. Qed.
+Print Assumptions C18_weights_cells.
+
+Example C18_weights_single_note :
+  let c := grid_cfg (fz 16) (fz 1) 60 1 in
+  let n := {| n_pitch := 60; n_vel := 80; n_start := ftime (fz 16) 2; n_end := ftime (fz 16) 8 |} in
+  map (fun i => zget (weights_roll c [n]) i 0) [0; 1; 2; 3; 4; 5; 6; 7; 8; 9] = [0; 1; 1; 1; 1; 2; 3; 4; 0; 0].
+Proof. exact weights_single_note_demo. Qed.
+Print Assumptions C18_weights_single_note.
 
 (** ** runs_decoded: the run-length decoder (all matrices, all onset / offset predictions) *)
 
